@@ -16,7 +16,9 @@ pub use crate::{accept::verif::*, socket::MioStream, worker::verif::*};
 /// Points inside the accept loop at which a generated schedule may run other "threads".
 #[derive(Debug, Clone, Copy, PartialEq, Eq)]
 pub enum YieldPoint {
-    /// `send_connection`: the connection has been sent to worker `idx`, `inc_counter` has not run yet
+    /// `send_connection`: the connection has been sent to worker `idx`, the accept loop has not
+    /// yet recorded the dispatch (availability bit, round-robin position; before the fix that
+    /// counts a connection ahead of the send also `inc_counter`)
     SentNotCounted { idx: usize },
 }
 
